@@ -162,3 +162,298 @@ Proof.
     cbn [negb andb].
     destruct (range_min (nthZ cells pos 0) <=? t) eqn:E3; [reflexivity|apply Z.leb_gt in E3; lia].
 Qed.
+
+(** * Point containment through the index = brute force *)
+Section Contains.
+  Variable point : Type.
+  Variable pt_eqb : point -> point -> bool.
+  Variable crossing_sign : point -> point -> point -> point -> crossing.
+  Variable vertex_crossing : point -> point -> point -> point -> bool.
+  Variable cell_center : Z -> point.
+  Variable leaf_of_point : point -> Z.
+
+  Notation eov := (edge_or_vertex_crossing point crossing_sign vertex_crossing).
+  Notation parity := (parity_crossings point crossing_sign vertex_crossing).
+  Notation sc_loop := (shape_contains_loop point pt_eqb crossing_sign vertex_crossing).
+  Notation sc := (shape_contains point pt_eqb crossing_sign vertex_crossing).
+  Notation brute := (brute_contains point crossing_sign vertex_crossing).
+  Notation brute_model := (brute_contains_model point pt_eqb crossing_sign vertex_crossing).
+  Notation qshape := (qshape point).
+  Notation pedge := (pedge point).
+
+  Lemma parity_acc a b (es : list pedge) acc :
+    fold_left (fun acc (e : pedge) => xorb acc (eov a b (fst e) (snd e))) es acc = xorb acc (parity a b es).
+  Proof.
+    unfold parity_crossings. revert acc. induction es as [|e t IH]; intros acc; cbn [fold_left].
+    - rewrite xorb_false_r. reflexivity.
+    - rewrite IH. rewrite (IH (xorb false _)). rewrite xorb_false_l, xorb_assoc. reflexivity.
+  Qed.
+
+  Lemma parity_cons a b (e : pedge) t : parity a b (e :: t) = xorb (eov a b (fst e) (snd e)) (parity a b t).
+  Proof. unfold parity_crossings at 1. cbn [fold_left]. rewrite parity_acc, xorb_false_l. reflexivity. Qed.
+
+  (** the semi-open edge loop is the crossing parity of centre -> p over the listed edges *)
+  Lemma sc_loop_semiopen center p (es : list pedge) inside :
+    sc_loop VertexModelSemiOpen center p es inside = xorb inside (parity center p es).
+  Proof.
+    revert inside. induction es as [|[v0 v1] t IH]; intros inside.
+    - cbn. rewrite xorb_false_r. reflexivity.
+    - rewrite parity_cons. cbn [shape_contains_loop fst snd model_eqb negb andb].
+      unfold edge_or_vertex_crossing.
+      destruct (crossing_sign center p v0 v1); rewrite IH.
+      + rewrite xorb_assoc. reflexivity.
+      + rewrite xorb_assoc. reflexivity.
+      + rewrite xorb_false_l. reflexivity.
+  Qed.
+
+  Definition has_endpoint (p : point) (e : pedge) : bool := pt_eqb (fst e) p || pt_eqb (snd e) p.
+
+  (** open and closed differ from semi-open only when p is an endpoint of a listed edge *)
+  Lemma sc_loop_no_vertex model center p (es : list pedge) inside :
+    existsb (has_endpoint p) es = false ->
+    sc_loop model center p es inside = sc_loop VertexModelSemiOpen center p es inside.
+  Proof.
+    revert inside. induction es as [|[v0 v1] t IH]; intros inside Hno; [reflexivity|].
+    cbn [existsb] in Hno. apply orb_false_elim in Hno as (Hh & Ht). unfold has_endpoint in Hh. cbn [fst snd] in Hh.
+    cbn [shape_contains_loop]. rewrite Hh, andb_false_r. cbn [model_eqb negb andb].
+    destruct (crossing_sign center p v0 v1); apply IH; assumption.
+  Qed.
+
+  (** ... and when it is (and CrossingSign reports the shared vertex as MaybeCross), closed says
+      "contained" and open says "not contained" *)
+  Lemma sc_loop_vertex model center p (es : list pedge) inside :
+    model <> VertexModelSemiOpen ->
+    existsb (has_endpoint p) es = true ->
+    (forall e, In e es -> has_endpoint p e = true -> crossing_sign center p (fst e) (snd e) = MaybeCross) ->
+    sc_loop model center p es inside = model_eqb model VertexModelClosed.
+  Proof.
+    intros Hm. revert inside. induction es as [|[v0 v1] t IH]; intros inside Hex Hsign; [discriminate|].
+    cbn [shape_contains_loop].
+    assert (negb (model_eqb model VertexModelSemiOpen) = true) as Hnm by (destruct model; [reflexivity|congruence|reflexivity]).
+    rewrite Hnm. cbn [andb].
+    destruct (has_endpoint p (v0, v1)) eqn:Hh.
+    - pose proof (Hsign (v0, v1) (or_introl eq_refl) Hh) as Hs0. cbn [fst snd] in Hs0. rewrite Hs0. unfold has_endpoint in Hh. cbn [fst snd] in Hh. rewrite Hh. reflexivity.
+    - cbn [existsb] in Hex. rewrite Hh in Hex. cbn [orb] in Hex.
+      unfold has_endpoint in Hh. cbn [fst snd] in Hh. rewrite Hh.
+      assert (forall e, In e t -> has_endpoint p e = true -> crossing_sign center p (fst e) (snd e) = MaybeCross) as Hs'
+        by (intros e He; apply Hsign; right; exact He).
+      destruct (crossing_sign center p v0 v1); apply IH; assumption.
+  Qed.
+
+  (** One located cell, one shape. [listed] are the shape's edges the cell lists.
+      H1: containsCenter is brute force at the centre;
+      H-CLIP (as used): an edge the cell does not list is not crossed by centre -> p, so the parity
+      over all edges equals the parity over the listed ones;
+      H-JORDAN (as used): crossing parities along ref -> centre -> p and ref -> p agree. *)
+  Theorem shape_contains_semiopen_eq_brute (s : qshape) (cl : clipped) ref ref_inside center p :
+    cl_containsCenter cl = brute s ref ref_inside center ->
+    (q_dim s = 2 -> parity center p (q_edges s) = parity center p (edges_of point s (cl_edges cl))) ->
+    (q_dim s = 2 -> xorb (parity ref center (q_edges s)) (parity center p (q_edges s)) = parity ref p (q_edges s)) ->
+    sc VertexModelSemiOpen s cl center p = brute s ref ref_inside p.
+  Proof.
+    intros H1 Hclip Hjordan. unfold shape_contains, brute_contains in *.
+    destruct (q_dim s =? 2) eqn:Ed; cbn [negb] in *.
+    - apply Z.eqb_eq in Ed. specialize (Hclip Ed). specialize (Hjordan Ed).
+      assert (xorb (cl_containsCenter cl) (parity center p (edges_of point s (cl_edges cl))) =
+              xorb ref_inside (parity ref p (q_edges s))) as Hmain.
+      { rewrite H1, <- Hclip, <- Hjordan. rewrite xorb_assoc. reflexivity. }
+      destruct (lenZ (cl_edges cl) <=? 0) eqn:El.
+      + assert (cl_edges cl = []) as Hnil by (apply Z.leb_le in El; unfold lenZ in El; destruct (cl_edges cl); [reflexivity|cbn in El; lia]).
+        rewrite Hnil in Hmain. cbn in Hmain. rewrite xorb_false_r in Hmain. exact Hmain.
+      + rewrite sc_loop_semiopen. exact Hmain.
+    - destruct (lenZ (cl_edges cl) <=? 0); [exact H1|reflexivity].
+  Qed.
+
+  (** the same cell and shape under the open and closed models *)
+  Theorem shape_contains_models_eq_brute (model : vertex_model) (s : qshape) (cl : clipped) ref ref_inside center p :
+    sc VertexModelSemiOpen s cl center p = brute s ref ref_inside p ->
+    cl_containsCenter cl = brute s ref ref_inside center ->
+    (* an edge with endpoint p meets the cell holding p, so it is listed (completeness) *)
+    (is_vertex point pt_eqb s p = existsb (has_endpoint p) (edges_of point s (cl_edges cl))) ->
+    (* CrossingSign on a shared vertex *)
+    (forall e, In e (q_edges s) -> has_endpoint p e = true -> crossing_sign center p (fst e) (snd e) = MaybeCross) ->
+    sc model s cl center p = brute_model model s ref ref_inside p.
+  Proof.
+    intros Hsemi H1 Hvert Hsign.
+    destruct model; [| exact Hsemi |]; unfold brute_contains_model.
+    - (* open *)
+      unfold shape_contains in *. destruct (lenZ (cl_edges cl) <=? 0) eqn:El.
+      + assert (cl_edges cl = []) as Hnil by (apply Z.leb_le in El; unfold lenZ in El; destruct (cl_edges cl); [reflexivity|cbn in El; lia]).
+        rewrite Hnil in Hvert. cbn in Hvert. rewrite Hvert. cbn [negb andb].
+        destruct (q_dim s =? 2) eqn:Ed; [exact Hsemi|].
+        rewrite H1. unfold brute_contains. rewrite Ed. reflexivity.
+      + destruct (q_dim s =? 2) eqn:Ed; cbn [negb] in *; [|reflexivity].
+        rewrite Hvert. destruct (existsb (has_endpoint p) (edges_of point s (cl_edges cl))) eqn:Ev; cbn [negb andb].
+        * apply sc_loop_vertex; [discriminate|exact Ev|].
+          intros e He. apply Hsign. unfold edges_of in He. apply in_flat_map in He as (i & _ & He).
+          destruct ((0 <=? i) && (i <? lenZ (q_edges s))); [|contradiction].
+          destruct (nth_error (q_edges s) (Z.to_nat i)) eqn:En; [|contradiction].
+          destruct He as [<-|[]]. eapply nth_error_In; eassumption.
+        * rewrite sc_loop_no_vertex by exact Ev. exact Hsemi.
+    - (* closed *)
+      unfold shape_contains in *. destruct (lenZ (cl_edges cl) <=? 0) eqn:El.
+      + assert (cl_edges cl = []) as Hnil by (apply Z.leb_le in El; unfold lenZ in El; destruct (cl_edges cl); [reflexivity|cbn in El; lia]).
+        rewrite Hnil in Hvert. cbn in Hvert. rewrite Hvert. cbn [orb]. exact Hsemi.
+      + rewrite Hvert. destruct (q_dim s =? 2) eqn:Ed; cbn [negb model_eqb] in *.
+        * destruct (existsb (has_endpoint p) (edges_of point s (cl_edges cl))) eqn:Ev; cbn [orb].
+          -- apply sc_loop_vertex; [discriminate|exact Ev|].
+             intros e He. apply Hsign. unfold edges_of in He. apply in_flat_map in He as (i & _ & He).
+             destruct ((0 <=? i) && (i <? lenZ (q_edges s))); [|contradiction].
+             destruct (nth_error (q_edges s) (Z.to_nat i)) eqn:En; [|contradiction].
+             destruct He as [<-|[]]. eapply nth_error_In; eassumption.
+          -- rewrite sc_loop_no_vertex by exact Ev. exact Hsemi.
+        * unfold brute_contains. rewrite Ed. cbn [negb]. rewrite orb_false_r. reflexivity.
+  Qed.
+End Contains.
+
+(** * The whole query against brute force, for any index value satisfying [index_ok] *)
+Section Whole.
+  Variable point : Type.
+  Variable pt_eqb : point -> point -> bool.
+  Variable crossing_sign : point -> point -> point -> point -> crossing.
+  Variable vertex_crossing : point -> point -> point -> point -> bool.
+  Variable cell_center : Z -> point.
+  Variable leaf_of_point : point -> Z.
+  Variable shapes : list (qshape point).
+  (** the reference point of each shape (Shape.ReferencePoint) *)
+  Variable ref_of : Z -> point.
+  Variable ref_inside_of : Z -> bool.
+
+  Notation eov := (edge_or_vertex_crossing point crossing_sign vertex_crossing).
+  Notation parity := (parity_crossings point crossing_sign vertex_crossing).
+  Notation brute := (brute_contains point crossing_sign vertex_crossing).
+  Notation brute_model := (brute_contains_model point pt_eqb crossing_sign vertex_crossing).
+  Notation shape sid := (nth_shape point shapes sid).
+
+  Definition cell_id (idx : index) (pos : Z) : Z := fst (nth_cell idx pos).
+  Definition entry (idx : index) (pos sid : Z) : option clipped := find_by_shape (snd (nth_cell idx pos)) sid.
+  (** the edges of shape [sid] that cell [pos] lists *)
+  Definition listed (idx : index) (pos sid : Z) : list (pedge point) :=
+    match entry idx pos sid with Some cl => edges_of point (shape sid) (cl_edges cl) | None => [] end.
+
+  Fixpoint increasing (l : list Z) : Prop :=
+    match l with
+    | [] => True
+    | x :: t => match t with [] => True | y :: _ => x < y end /\ increasing t
+    end.
+
+  (** what the harness validates on every index the implementation builds *)
+  Record index_ok (idx : index) : Prop := {
+    ok_cells : cells_ok (cell_ids idx);
+    ok_edges : forall pos cl, 0 <= pos < lenZ idx -> In cl (snd (nth_cell idx pos)) ->
+      0 <= cl_shape cl < lenZ shapes /\ increasing (cl_edges cl) /\
+      Forall (fun e => 0 <= e < lenZ (q_edges (shape (cl_shape cl)))) (cl_edges cl);
+    ok_center : forall pos sid, 0 <= pos < lenZ idx -> 0 <= sid < lenZ shapes ->
+      match entry idx pos sid with Some cl => cl_containsCenter cl | None => false end =
+      brute (shape sid) (ref_of sid) (ref_inside_of sid) (cell_center (cell_id idx pos)) }.
+
+  (** H-JORDAN, in the form used: for every polygonal shape the crossing parities along
+      ref -> a -> b and along ref -> b agree (even number of crossings around a closed path) *)
+  Definition H_JORDAN : Prop := forall sid a b, 0 <= sid < lenZ shapes -> q_dim (shape sid) = 2 ->
+    xorb (parity (ref_of sid) a (q_edges (shape sid))) (parity a b (q_edges (shape sid))) =
+    parity (ref_of sid) b (q_edges (shape sid)).
+  (** H-CLIP, in the form used: in the cell holding p, the edges the cell does not list are not
+      crossed by centre -> p, so all edges and listed edges have the same crossing parity *)
+  Definition H_CLIP (idx : index) : Prop := forall pos sid p, 0 <= pos < lenZ idx -> 0 <= sid < lenZ shapes ->
+    in_cell (cell_id idx pos) (leaf_of_point p) -> q_dim (shape sid) = 2 ->
+    parity (cell_center (cell_id idx pos)) p (q_edges (shape sid)) =
+    parity (cell_center (cell_id idx pos)) p (listed idx pos sid).
+  (** the cells cover every shape: a point in no index cell is in no shape *)
+  Definition H_COVER (idx : index) : Prop := forall p sid, 0 <= sid < lenZ shapes ->
+    (forall pos, 0 <= pos < lenZ idx -> ~ in_cell (cell_id idx pos) (leaf_of_point p)) ->
+    brute (shape sid) (ref_of sid) (ref_inside_of sid) p = false.
+  (** an edge ending at p meets the cell holding p, hence is listed there *)
+  Definition H_CLIP_VERTEX (idx : index) : Prop := forall pos sid p, 0 <= pos < lenZ idx -> 0 <= sid < lenZ shapes ->
+    in_cell (cell_id idx pos) (leaf_of_point p) ->
+    is_vertex point pt_eqb (shape sid) p = existsb (has_endpoint point pt_eqb p) (listed idx pos sid).
+  (** CrossingSign(a, p, c, d) with p one of c, d is MaybeCross *)
+  Definition H_SHARED_VERTEX : Prop := forall a p c d, pt_eqb c p || pt_eqb d p = true -> crossing_sign a p c d = MaybeCross.
+  (** a point in no index cell is no vertex *)
+  Definition H_COVER_VERTEX (idx : index) : Prop := forall p sid, 0 <= sid < lenZ shapes ->
+    (forall pos, 0 <= pos < lenZ idx -> ~ in_cell (cell_id idx pos) (leaf_of_point p)) ->
+    is_vertex point pt_eqb (shape sid) p = false.
+
+  Lemma cell_ids_len idx : lenZ (cell_ids idx) = lenZ idx.
+  Proof. unfold cell_ids, lenZ. rewrite map_length. reflexivity. Qed.
+  Lemma cell_ids_nth idx pos : nthZ (cell_ids idx) pos 0 = cell_id idx pos.
+  Proof.
+    unfold cell_ids, cell_id, nth_cell, nthZ. destruct (pos <? 0); [reflexivity|].
+    apply (map_nth fst idx (0, []) (Z.to_nat pos)).
+  Qed.
+
+  Lemma locate_cases idx p :
+    index_ok idx ->
+    match locate_point (cell_ids idx) (leaf_of_point p) with
+    | Some pos => 0 <= pos < lenZ idx /\ in_cell (cell_id idx pos) (leaf_of_point p)
+    | None => forall pos, 0 <= pos < lenZ idx -> ~ in_cell (cell_id idx pos) (leaf_of_point p)
+    end.
+  Proof.
+    intros Hok. destruct (locate_point (cell_ids idx) (leaf_of_point p)) as [pos|] eqn:El.
+    - apply locate_point_sound in El; [|apply Hok]. rewrite cell_ids_len, cell_ids_nth in El. exact El.
+    - intros pos Hpos Hin. rewrite <- cell_ids_nth in Hin.
+      rewrite (locate_point_complete (cell_ids idx) _ pos) in El; [discriminate|apply Hok|rewrite cell_ids_len; exact Hpos|exact Hin].
+  Qed.
+
+  Lemma entry_shape idx pos sid cl : entry idx pos sid = Some cl -> cl_shape cl = sid /\ In cl (snd (nth_cell idx pos)).
+  Proof.
+    unfold entry, find_by_shape. intros H. apply find_some in H as (Hin & He). apply Z.eqb_eq in He. auto.
+  Qed.
+
+  (** ContainsPointQuery.ShapeContains under the semi-open model = brute force over all edges *)
+  Theorem query_eq_brute_semiopen idx : index_ok idx -> H_JORDAN -> H_CLIP idx -> H_COVER idx ->
+    forall sid p, 0 <= sid < lenZ shapes ->
+    query_shape_contains point pt_eqb crossing_sign vertex_crossing cell_center leaf_of_point
+      VertexModelSemiOpen shapes idx sid p =
+    brute (shape sid) (ref_of sid) (ref_inside_of sid) p.
+  Proof.
+    intros Hok Hj Hc Hcov sid p Hsid. unfold query_shape_contains.
+    pose proof (locate_cases idx p Hok) as Hl.
+    destruct (locate_point (cell_ids idx) (leaf_of_point p)) as [pos|].
+    - destruct Hl as (Hpos & Hin).
+      pose proof (ok_center idx Hok pos sid Hpos Hsid) as H1.
+      pose proof (Hc pos sid p Hpos Hsid Hin) as Hclip. unfold listed in Hclip.
+      unfold cell_id, entry in *. destruct (nth_cell idx pos) as [id cell] eqn:En. cbn [fst snd] in *.
+      destruct (find_by_shape cell sid) as [cl|] eqn:Ef.
+      + apply (shape_contains_semiopen_eq_brute point pt_eqb crossing_sign vertex_crossing); [exact H1|exact Hclip|].
+        intros Hd. apply Hj; assumption.
+      + symmetry.
+        rewrite <- (shape_contains_semiopen_eq_brute point pt_eqb crossing_sign vertex_crossing
+                      (shape sid) (mkClipped sid false []) (ref_of sid) (ref_inside_of sid) (cell_center id) p).
+        * reflexivity.
+        * exact H1.
+        * exact Hclip.
+        * intros Hd. apply Hj; assumption.
+    - symmetry. apply Hcov; assumption.
+  Qed.
+
+  (** ... and under the open and closed models: they differ from semi-open exactly on vertices *)
+  Theorem query_eq_brute idx : index_ok idx -> H_JORDAN -> H_CLIP idx -> H_COVER idx ->
+    H_CLIP_VERTEX idx -> H_COVER_VERTEX idx -> H_SHARED_VERTEX ->
+    forall model sid p, 0 <= sid < lenZ shapes ->
+    query_shape_contains point pt_eqb crossing_sign vertex_crossing cell_center leaf_of_point
+      model shapes idx sid p =
+    brute_model model (shape sid) (ref_of sid) (ref_inside_of sid) p.
+  Proof.
+    intros Hok Hj Hc Hcov Hcv Hcovv Hsh model sid p Hsid.
+    pose proof (query_eq_brute_semiopen idx Hok Hj Hc Hcov sid p Hsid) as Hsemi.
+    unfold query_shape_contains in *.
+    pose proof (locate_cases idx p Hok) as Hl.
+    destruct (locate_point (cell_ids idx) (leaf_of_point p)) as [pos|].
+    - destruct Hl as (Hpos & Hin).
+      pose proof (ok_center idx Hok pos sid Hpos Hsid) as H1.
+      pose proof (Hcv pos sid p Hpos Hsid Hin) as Hvert. unfold listed in Hvert.
+      unfold cell_id, entry in *. destruct (nth_cell idx pos) as [id cell] eqn:En. cbn [fst snd] in *.
+      destruct (find_by_shape cell sid) as [cl|] eqn:Ef.
+      + apply (shape_contains_models_eq_brute point pt_eqb crossing_sign vertex_crossing); try assumption.
+        intros e _ He. apply Hsh. exact He.
+      + (* no entry: no listed edge, the centre is outside *)
+        cbn [existsb] in Hvert.
+        destruct model; unfold brute_contains_model; rewrite ?Hvert, <- ?Hsemi; cbn [negb andb orb];
+          try reflexivity.
+        destruct (q_dim (shape sid) =? 2); reflexivity.
+    - pose proof (Hcovv p sid Hsid Hl) as Hv. pose proof (Hcov p sid Hsid Hl) as Hb.
+      destruct model; unfold brute_contains_model; rewrite ?Hv, ?Hb; cbn [negb andb orb];
+        try reflexivity.
+      destruct (q_dim (shape sid) =? 2); reflexivity.
+  Qed.
+End Whole.
